@@ -1,7 +1,7 @@
 """C10, family `net`: option updates through the PUBLIC paths of whole MPS models.
 
 A real MPS model (Conv2d or Conv1d stem, optional residual add, Linear head, input quantizer) is driven by
-  ('mupd', t, h, g, d)          MPS.update_softmax_options(...)           -> reaches every selector of the model
+  ('mupd', t, h, g, d)          MPS.update_softmax_options(...)           -> reaches the out / w selectors of every MPS layer
   ('lupd', role, t, h, g, d)    <layer>.update_softmax_options(...) of one MPS layer (MPSConv2d / MPSConv1d / MPSLinear /
                                 MPSIdentity / MPSAdd)                     -> reaches that layer's out / w selectors
   ('train',) ('eval',) ('fwd', seed, autograd mode) ('opt', seed, route)  (new coefficients for every selector, arg-max moved)
@@ -126,6 +126,7 @@ def exec_net(spec):
                 t, h_, g_, d_ = op[-4:]
                 if op[0] == 'mupd':
                     p.update_softmax_options(temperature=t, hard=h_, gumbel=g_, disable_sampling=d_)
+                    touched = set().union(*[reach(l_) for l_ in layers])     # every out / w selector of every MPS layer
                 else:
                     if op[1] not in role2layer:
                         continue
